@@ -7,7 +7,8 @@
 (* Written from the property text and the package documentation.            *)
 EXTENDS ModeFile, Calendar, FiniteSets
 
-Act(op, a, n1, n2, ok) == [op |-> op, a |-> a, n1 |-> n1, n2 |-> n2, ok |-> ok]
+ActP(op, a, p, n1, n2, ok) == [op |-> op, a |-> a, p |-> p, n1 |-> n1, n2 |-> n2, ok |-> ok]
+Act(op, a, n1, n2, ok) == ActP(op, a, "", n1, n2, ok)
 
 (* ---- time: instants are <<day, seconds of the day>> ----------------------- *)
 MidnightBefore(e, d, t) == e < d \/ (e = d /\ t > 0)     \* 00:00 of day e is strictly before the instant
@@ -44,8 +45,14 @@ Restrict(f, ks) == [x \in ks |-> f[x]]
 (* The observable state as a record, and the effect of each action as a       *)
 (* function on such records (used by the actions below and, on states         *)
 (* observed on the real code, by ConsentTrace.tla).                           *)
-St(mf, d, t, fs, lo, re, up, rq) ==
-    [modeFile |-> mf, day |-> d, tod |-> t, files |-> fs, local |-> lo, ready |-> re, uploaded |-> up, requests |-> rq]
+St(mf, it, d, t, fs, lo, re, up, rq) ==
+    [modeFile |-> mf, intent |-> it, day |-> d, tod |-> t, files |-> fs, local |-> lo, ready |-> re, uploaded |-> up, requests |-> rq]
+
+(* The mode that governs what the library may do: what the user set with the   *)
+(* last accepted SetMode; when the file was last written by hand (or never),   *)
+(* the file itself.  After a correct SetMode the two are the same; a library   *)
+(* that writes something else than it was asked to is judged by what was asked. *)
+Gov(s) == IF s.intent = NoIntent THEN s.modeFile ELSE s.intent
 
 (* One run of the uploader (number runNo) starting at the state's instant,    *)
 (* with X = x for every report it makes and a downloaded config whose         *)
@@ -56,11 +63,11 @@ RunStep(s, x, rate, runNo) ==
     LET fin == FinishedFiles(DOMAIN s.files, s.day, s.tod)
         weeks == {f.e : f \in fin}
         fresh == {wk \in weeks : wk \notin s.local \cup s.ready \cup s.uploaded}
-        newReady == {wk \in fresh : Uploadable(s.modeFile, DataOf(fin, wk), wk, x, rate, s.day, s.tod)}
+        newReady == {wk \in fresh : Uploadable(Gov(s), DataOf(fin, wk), wk, x, rate, s.day, s.tod)}
         ready1 == s.ready \cup newReady
-        toSend == {wk \in ready1 : Sendable(s.modeFile, wk, s.day)}
+        toSend == {wk \in ready1 : Sendable(Gov(s), wk, s.day)}
         posted == toSend \ s.uploaded
-    IN IF EffMode(s.modeFile) = "off" THEN s
+    IN IF EffMode(Gov(s)) = "off" THEN s
        ELSE [s EXCEPT !.files = Restrict(s.files, (DOMAIN s.files) \ fin),
                       !.local = s.local \cup fresh,
                       !.ready = ready1 \ toSend,
@@ -71,22 +78,28 @@ RunStep(s, x, rate, runNo) ==
 (* increments one counter once.                                               *)
 CollectStep(s, p, w) ==
     LET f == [p |-> p, b |-> Begin(s.day), e |-> End(s.day, w)] IN
-    IF EffMode(s.modeFile) = "off" THEN s
+    IF EffMode(Gov(s)) = "off" THEN s
     ELSE [s EXCEPT !.files = IF f \in DOMAIN s.files THEN [s.files EXCEPT ![f] = @ + 1] ELSE Put(s.files, f, 1)]
 
-(* The library call SetMode(m) as of day d: a valid mode is recorded with the *)
-(* date, anything else is rejected and leaves the file as it was.             *)
-SetStep(s, m, d) == IF m \in ValidModes THEN [s EXCEPT !.modeFile = Written(m, d)] ELSE s
+(* The library call SetMode(arg) as of day d, arg being the word m with padding *)
+(* p: a valid mode is recorded with the date, an invalid one is rejected and    *)
+(* leaves the file as it was; a padded valid mode is either rejected (acc =     *)
+(* FALSE) or recorded as the mode without its padding.                          *)
+SetStep(s, m, p, d, acc) ==
+    IF m \in ValidModes /\ (p = "" \/ acc)
+    THEN [s EXCEPT !.modeFile = Written(m, d), !.intent = Written(m, d)]
+    ELSE s
+SetAccepted(m, p, acc) == m \in ValidModes /\ (p = "" \/ acc)
 
 (* ---- the property, clause by clause ----------------------------------------- *)
 (* Each clause is an operator over (action, state before, state after) so that  *)
 (* it can be evaluated on the model's transitions here and on transitions       *)
 (* observed on the real code in ConsentTrace.tla.  A state is a record with     *)
-(* fields modeFile, day, tod, files (function [p, b, e] -> count), local, ready, *)
+(* fields modeFile, intent, day, tod, files (function [p, b, e] -> count), local, ready, *)
 (* uploaded, requests.                                                                    *)
 (* "A request is made to the upload server only when the mode recorded in the   *)
 (* mode file is exactly on."                                                    *)
-C_RequestOnlyWhenOn(a, s, t) == t.requests # s.requests => ExactlyOn(s.modeFile)
+C_RequestOnlyWhenOn(a, s, t) == t.requests # s.requests => ExactlyOn(Gov(s))
 
 (* the weeks made uploadable by a run: a ready report appears, or the report    *)
 (* went all the way to the server within the run                                *)
@@ -98,7 +111,7 @@ U_Cond(which, a, s, wk) ==
     CASE which = "data"  -> data # {}
       [] which = "age"   -> wk <= s.day /\ ~AgeOver21(wk, s.day, s.tod)    \* ended, and no more than 21 days before the run
       [] which = "rate"  -> (a.n2 > 0 => a.n1 <= a.n2)                     \* X not above a positive sample rate
-      [] which = "optin" -> (OptIn(s.modeFile) # NoDate => \A f \in data : OptIn(s.modeFile) < f.b)
+      [] which = "optin" -> (OptIn(Gov(s)) # NoDate => \A f \in data : OptIn(Gov(s)) < f.b)
 C_UploadableOnlyIfW(which, a, s, t) ==
     a.op = "run" => \A wk \in MadeUploadable(s, t) : U_Cond(which, a, s, wk)
 C_UploadableOnlyIf(a, s, t) == \A which \in {"data", "age", "rate", "optin"} : C_UploadableOnlyIfW(which, a, s, t)
@@ -107,14 +120,14 @@ C_UploadableOnlyIf(a, s, t) == \A which \in {"data", "age", "rate", "optin"} : C
 (* ends after the recorded opt-in date"                                        *)
 S_Cond(which, s, wk) ==
     CASE which = "future" -> wk <= s.day
-      [] which = "optin"  -> (OptIn(s.modeFile) # NoDate => OptIn(s.modeFile) < wk)
+      [] which = "optin"  -> (OptIn(Gov(s)) # NoDate => OptIn(Gov(s)) < wk)
 C_SentOnlyIfW(which, a, s, t) == \A r \in t.requests \ s.requests : S_Cond(which, s, r.wk)
 C_SentOnlyIf(a, s, t) == \A which \in {"future", "optin"} : C_SentOnlyIfW(which, a, s, t)
 
 (* "With mode off neither the counter API nor the uploader creates, changes or  *)
 (* removes any counter file or report"                                          *)
 C_OffChangesNothing(a, s, t) ==
-    (ExactlyOff(s.modeFile) /\ a.op \in {"run", "collect"}) =>
+    (ExactlyOff(Gov(s)) /\ a.op \in {"run", "collect"}) =>
         /\ t.files = s.files /\ t.local = s.local /\ t.ready = s.ready /\ t.uploaded = s.uploaded
         /\ t.requests = s.requests
 
@@ -122,7 +135,7 @@ C_OffChangesNothing(a, s, t) ==
 (* nothing sent)": every finished week that has no report yet gets its local    *)
 (* report, and no request is made.                                              *)
 C_OtherBehavesLocal(a, s, t) ==
-    (a.op = "run" /\ EffMode(s.modeFile) = "local") =>
+    (a.op = "run" /\ EffMode(Gov(s)) = "local") =>
         /\ t.requests = s.requests
         /\ \A f \in FinishedFiles(DOMAIN s.files, s.day, s.tod) :
               f.e \notin (s.local \cup s.ready \cup s.uploaded) => f.e \in t.local
@@ -131,7 +144,10 @@ C_OtherBehavesLocal(a, s, t) ==
 (* while an invalid mode is rejected leaving the file unchanged"                *)
 C_SetGet(a, s, t) ==
     a.op = "set" =>
-       IF a.a \in ValidModes THEN a.ok /\ ReadBack(t.modeFile) = <<a.a, a.n1>>
-       ELSE ~a.ok /\ t.modeFile = s.modeFile
+       LET accepted == a.ok /\ ReadBack(t.modeFile) = <<a.a, a.n1>>
+           rejected == ~a.ok /\ t.modeFile = s.modeFile
+       IN IF a.a \notin ValidModes THEN rejected
+          ELSE IF a.p = "" THEN accepted
+          ELSE accepted \/ rejected
 
 =============================================================================
